@@ -553,6 +553,9 @@ func runC13(c *core.Ctx) {
 		c.Check(good, "R3", "holder/installed-first", p.Pos(sc.Pos()), "holder is added first, after the initialiser, before serving", why)
 	}
 	importObligations(c, runC05, "R3", func(o *core.Obligation) bool { return strings.Contains(o.Key, "active/before-reads") })
+	// closing a channel closes its socket
+	c.Rule("R7", "the transport wrappers' Close reaches the connection on every path (shared with C17-R6)", 1)
+	importObligations(c, runC17, "R7", func(o *core.Obligation) bool { return o.Rule == "R6" })
 
 	runC13Listener(c, e, br, serverClosed)
 }
